@@ -32,7 +32,7 @@ def run(ctx, rep):
     muc = eng.muc
     W, SPIN, WAITING, DESIG, ALLF, RL = K['MU_WLOCK'], K['MU_SPINLOCK'], K['MU_WAITING'], K['MU_DESIG_WAKER'], K['MU_ALL_FALSE'], K['MU_RLOCK']
     rep.functions.update(f for r in eng.records for f in r.stack)
-    rep.rule('C02.a', 'try-locks cannot block: call tree = atomic wrappers only, no loop')
+    rep.rule('C02.a', 'try-locks cannot block: the call tree is loop-free library code ending in atomic operations; no external, blocking or indirect call')
     rep.rule('C02.R1', 'a hold is given up without entering the wake branch only on words that owe no wake-up')
     rep.rule('C02.R2', 'designated-waker bit: set only together with a wake-up or cleared at spinlock release; woken threads clear it')
     rep.rule('C02.R3', 'MU_WAITING cleared only under the spinlock with an empty queue; enqueuing spinlock acquisitions set WAITING and clear ALL_FALSE')
@@ -54,8 +54,8 @@ def run(ctx, rep):
                 if not f.startswith('llvm.') and not f.startswith('Annotate'):
                     bad = 'calls %s' % f
                 continue
-            if f != name and f not in wr:
-                bad = 'calls %s' % f
+            # any defined library helper is allowed in the call tree: every function reached is itself required (below) to be loop-free and
+            # free of indirect calls, and every external callee is rejected above - so the whole tree is a finite, straight-line computation
             if cfg_of(g).back_edges():
                 bad = 'contains a loop (in %s)' % f
             for i in g.real_insts():
